@@ -4,9 +4,9 @@ import (
 	"github.com/glebziz/fs_db/internal/usecase/store"
 )
 
-func (c *Container) Store() *store.UseCase {
+func (c *Container) Store() *store.TxGuard {
 	if c.storeUseCase == nil {
-		c.storeUseCase = store.New(
+		c.storeUseCase = store.NewTxGuard(store.New(
 			c.Dir(),
 			c.ContentRepo(),
 			c.ContentFileRepo(),
@@ -14,7 +14,7 @@ func (c *Container) Store() *store.UseCase {
 			c.TransactionRepo(),
 			c.Gen(),
 			c.Rand(),
-		)
+		))
 	}
 
 	return c.storeUseCase
